@@ -32,7 +32,8 @@ type Env struct {
 	KF       *KnownFindings
 	Scratch  string // removed at exit
 	mu       sync.Mutex
-	worlds   chan *exec.World
+	pools    map[*Repo]chan *exec.World
+	owner    map[*exec.World]*Repo
 	sem      chan struct{}
 	allW     []*exec.World
 	L3       any
@@ -47,6 +48,7 @@ type IC struct {
 	mu                                     sync.Mutex
 	witness                                bool
 	kfSeen                                 map[string]bool
+	Repo                                   *Repo // program to interpret (default: the moq repository)
 	reached                                int
 	Samples                                []any
 	Viol                                   []Violation
@@ -148,22 +150,28 @@ type HResult struct {
 	Wall      time.Duration
 }
 
-func (env *Env) newWorld() *exec.World {
-	w, err := env.Repo.NewWorld(env.Solver, env.Timeout)
+func (env *Env) newWorld(repo *Repo) *exec.World {
+	w, err := repo.NewWorld(env.Solver, env.Timeout)
 	if err != nil {
 		panic(err)
 	}
-	for k, v := range NewTM(env.Repo).Stubs() {
-		w.Stubs[k] = v
-	}
-	for k, v := range MockEnvStubs() {
-		w.Stubs[k] = v
-	}
-	for k, v := range RunGlobals() {
-		w.GlobalGen[k] = v
-	}
-	if err := env.Repo.RunInits(w); err != nil {
-		panic(err)
+	if repo == env.Repo {
+		for k, v := range NewTM(env.Repo).Stubs() {
+			w.Stubs[k] = v
+		}
+		for k, v := range MockEnvStubs() {
+			w.Stubs[k] = v
+		}
+		for k, v := range RunGlobals() {
+			w.GlobalGen[k] = v
+		}
+		if err := repo.RunInits(w); err != nil {
+			panic(err)
+		}
+	} else {
+		for k, v := range L3Stubs() {
+			w.Stubs[k] = v
+		}
 	}
 	w.Trace = os.Getenv("MOQSYM_TRACE") != ""
 	if f := os.Getenv("MOQSYM_SMTLOG"); f != "" {
@@ -177,24 +185,37 @@ func (env *Env) newWorld() *exec.World {
 }
 
 // getWorld blocks until one of the env.Workers solver slots is free.
-func (env *Env) getWorld() *exec.World {
+func (env *Env) getWorld(repo *Repo) *exec.World {
 	env.mu.Lock()
 	if env.sem == nil {
 		env.sem = make(chan struct{}, env.Workers)
-		env.worlds = make(chan *exec.World, env.Workers+1)
+		env.pools = map[*Repo]chan *exec.World{}
+		env.owner = map[*exec.World]*Repo{}
+	}
+	pool := env.pools[repo]
+	if pool == nil {
+		pool = make(chan *exec.World, env.Workers+1)
+		env.pools[repo] = pool
 	}
 	env.mu.Unlock()
 	env.sem <- struct{}{}
 	select {
-	case w := <-env.worlds:
+	case w := <-pool:
 		return w
 	default:
 	}
-	return env.newWorld()
+	w := env.newWorld(repo)
+	env.mu.Lock()
+	env.owner[w] = repo
+	env.mu.Unlock()
+	return w
 }
 
 func (env *Env) putWorld(w *exec.World) {
-	env.worlds <- w
+	env.mu.Lock()
+	pool := env.pools[env.owner[w]]
+	env.mu.Unlock()
+	pool <- w
 	<-env.sem
 }
 
@@ -210,8 +231,12 @@ func (env *Env) Close() {
 // Explore explores all paths of body on the shared pool of solver workers.
 func (ic *IC) Explore(body func(ex *exec.Exec)) *exec.Stats {
 	env := ic.Env
+	repo := ic.Repo
+	if repo == nil {
+		repo = env.Repo
+	}
 	get := func() *exec.World {
-		w := env.getWorld()
+		w := env.getWorld(repo)
 		w.StrBound = ic.StrBound
 		w.MaxDepth = ic.MaxDepth
 		w.MaxSteps = ic.MaxSteps
